@@ -218,8 +218,12 @@ def world0 (lists : List (List Int)) : World Exact.QS Exact.Prob :=
   { heap := ⟨lists⟩, sim := none, rng := [], log := [], comp := defaultCompiler,
     proc := { pulses := none, phase := 0 } }
 
-def cfgCurrent : Cfg := { copyCbits := false, checkCcv := false, resetPhase := false, pureGetter := false }
-def cfgFixed : Cfg := { copyCbits := true, checkCcv := true, resetPhase := true, pureGetter := true }
+def cfgCurrent : Cfg :=
+  { copyCbits := false, checkCcv := false, resetPhase := false, pureGetter := false, dmRefuse := false,
+    copyRev := false, copyChain := false, noiseLocal := false }
+def cfgFixed : Cfg :=
+  { copyCbits := true, checkCcv := true, resetPhase := true, pureGetter := true, dmRefuse := true,
+    copyRev := true, copyChain := true, noiseLocal := true }
 
 /-- `SNOT 0; measure 0 → c0` -/
 def circHM : Circuit := { nq := 1, ncb := 1, ops := [.gate ⟨4, [0], none, 0⟩, .meas 0 (some 0)] }
